@@ -101,6 +101,15 @@ CHECKS = {
         note="Budget B(n)=2e6+15000n steps (>=60x the calibrated maximum, calibration re-measured each run); wall clock "
              "never decides. Damaged-input crash sites have a long tail: only the sites reached by this workload are judged.",
         design="§3.1 M-STEP, §4.5"),
+    "C11": dict(
+        technique="runtime monitors on the lexer (M-LEX token spans, M-DIAG lexical diagnostics) against a reference grammar of C constants",
+        text="Valid constants generated from the C11 6.4.4 grammar (+ the extensions the property names) - exhaustive for "
+             "digit strings up to the tier's bound x all suffix spellings, every escape form, 5 prefixes - are lexed alone "
+             "and in 7 left/right contexts: exactly one token of the right kind must span the spelling and no diagnostic "
+             "may be emitted; every member of the malformed families must get its required code.",
+        note="The reference grammar (nv/gen/literals.py) is written from the standard; a glued sign after the literal is "
+             "excluded because C itself munches it after e/E/p/P.",
+        design="§4.11"),
     "C12": dict(
         technique="relational runtime check: token sequences recorded by the lexer monitor (M-LEX) on a text and its respelt / spliced twin",
         text="On generated programs, random subsets of punctuator occurrences (IR-known) are respelt as digraphs/trigraphs "
@@ -126,6 +135,26 @@ CHECKS = {
              "one, be empty for the correct guard, and be empty for the same text under a .c name.",
         note="A leading digit in the base name is excluded (the guard would not be an identifier).",
         design="§4.14"),
+    "C15": dict(
+        technique="process-boundary monitor: audit hook on open() inside the child (M-IO) + verdict lines + exit status against an independent tree walk",
+        text="Random directory trees with hostile names (spaces, dots, glob metacharacters, look-alike suffixes, "
+             "directories named like sources, empty directories) and argument lists of files, directories, repeated "
+             "items, missing paths and non-C files, with no argument, and with --use-gitignore in a git tree: the sources "
+             "opened by the child (audit events) and the verdict lines must equal, as multisets per mention, the regular "
+             "*.c/*.h files found by an independent os.walk; non-C files must be rejected with a message and not opened; "
+             "a missing path must abort with non-zero status.",
+        note="Expected ignored set comes from `git ls-files -z -oi --exclude-standard`; the names `.c`/`.h` are not generated.",
+        design="§3.1 M-IO, §4.15"),
+    "C16": dict(
+        technique="process-boundary monitor: per-file observation recorded inside the child (Errors objects + M-DIAG emitters) compared across option sets",
+        text="For generated files, a pairwise covering array over {--no-colors, -f, -o, -d/-dd, -R word} (full product on "
+             "some files) is run through the real command line; the status and diagnostics recorded inside the child "
+             "must be identical to the option-free run for every file that reaches a verdict; under -R CheckDefine the "
+             "difference must be exactly the events emitted by CheckPreprocessorDefine; inline --cfile/--hfile content "
+             "(with/without --filename) must equal the on-disk twin and open no source file; printed reports are parsed "
+             "and compared when no debug output is mixed in.",
+        note="Pairs where a debug level turns a fatal error into extra output are skipped and counted.",
+        design="§4.16"),
     "C17": dict(
         technique="relational runtime check: observations (M-DIAG) of paired executions on a file and its literal/comment-replaced twin",
         text="For generated conforming and violating files, the body of random subsets of comment, string and character "
